@@ -4,7 +4,7 @@ import urllib.parse as U
 from .common import Exc
 
 SCHEMES = ["http://", "https://", "HTTP://", "hTTps://", "ftp://", "//", ""]
-USERINFO = ["", "", "", "", "u@", "u:p@", "u:@", ":p@", "%75:p%40@", "u%3A:p@", "é:p@", "a b@", "User:Pass@", "a%5Bb:%5D@", "U%41:P%2F@"]
+USERINFO = ["", "", "", "", "u@", "u:p@", "u:@", ":p@", "%75:p%40@", "u%3A:p@", "é:p@", "a b@", "User:Pass@", "a%5Bb:%5D@", "U%41:P%2F@", "john%3adoe:pa%2fss@"]
 HOSTS = ["x.com", "X.COM", "www.x.com", "lemonde.fr", "café.fr", "xn--caf-dma.fr", "CAFÉ.fr", "blog.télérama.xn--p1ai", "xn--tlrama-bvab.xn--ii.fr", "xn--caf-dma.café.fr", "a.b.co.uk", "127.0.0.1", "[::1]", "localhost", "m.x.com", "forum-m.x.com", "www.straße.de", "faß.example.org", "notyoutube.com", "myfacebook.com", "www.netflix.com"]
 PORTS = ["", "", "", ":80", ":443", ":8080", ":0", ":65535"]
 # tokens of the C14 alphabet
@@ -47,14 +47,14 @@ def gen_query(rng):
         return "?"
     items = []
     for _ in range(rng.choice([1, 1, 2, 3])):
-        k = seg(rng, ("/", "?", ":", "@"))
+        k = seg(rng, ("/", "?", ":", "@", ";", ","))
         q = rng.random()
         if q < 0.2:
             items.append(k)
         elif q < 0.3:
             items.append(k + "=")
         else:
-            items.append(k + "=" + seg(rng, ("/", "?", "=", ":", "@")))
+            items.append(k + "=" + seg(rng, ("/", "?", "=", ":", "@", ";", ",")))
     if rng.random() < 0.1:
         # empty items: '&&', a leading or a trailing '&'
         items.insert(rng.randrange(len(items) + 1), "")
@@ -264,7 +264,7 @@ def gen_su(rng, hosts=None, schemes=("http://", "https://")):
     f = None
     if rng.random() < 0.4:
         f = "".join(rng.choice(SAFE_TOK) for _ in range(rng.choice([1, 2])))
-    return SU(rng.choice(list(schemes)), rng.choice(["", "", "u:p@", "u@"]), rng.choice(hosts or ["x.com", "lemonde.fr", "café.fr", "a.b.co.uk", "blog.télérama.рф"]),
+    return SU(rng.choice(list(schemes)), rng.choice(["", "", "u:p@", "u@", "u%3A:p%2F@", "%7Cu@"]), rng.choice(hosts or ["x.com", "lemonde.fr", "café.fr", "a.b.co.uk", "blog.télérama.рф"]),
               rng.choice(["", "", ":8080"]), segs, rng.random() < 0.4, q, f)
 
 
